@@ -180,11 +180,31 @@ impl<DataInterfaceType: DeduplicationDataInterface> FileDeduper<DataInterfaceTyp
                     || self.defrag_tracker.allow_dedup_on_next_range(n_deduped)
                 {
                     // We found one or more chunk hashes present
+                    #[cfg(xet_verif)]
+                    utils::verif::emit("DdDecision", || {
+                        format!(
+                            "\"kind\":\"dedup\",\"idx\":{},\"n\":{},\"bytes\":{},\"local\":{}",
+                            global_chunk_index_start + cur_idx,
+                            n_deduped,
+                            fse.unpacked_segment_bytes,
+                            fse.cas_hash == MerkleHash::default()
+                        )
+                    });
                     self.add_file_data_sequence_entry(fse, n_deduped);
 
                     cur_idx += n_deduped;
                     continue;
                 } else {
+                    #[cfg(xet_verif)]
+                    utils::verif::emit("DdDecision", || {
+                        format!(
+                            "\"kind\":\"prevented\",\"idx\":{},\"n\":{},\"bytes\":{},\"local\":{}",
+                            global_chunk_index_start + cur_idx,
+                            n_deduped,
+                            fse.unpacked_segment_bytes,
+                            fse.cas_hash == MerkleHash::default()
+                        )
+                    });
                     dedup_metrics.defrag_prevented_dedup_chunks += n_deduped;
                     dedup_metrics.defrag_prevented_dedup_bytes += fse.unpacked_segment_bytes as usize;
                 }
@@ -192,6 +212,14 @@ impl<DataInterfaceType: DeduplicationDataInterface> FileDeduper<DataInterfaceTyp
 
             // Okay, now we need to add new data.
             let n_bytes = chunks[cur_idx].data.len();
+            #[cfg(xet_verif)]
+            utils::verif::emit("DdDecision", || {
+                format!(
+                    "\"kind\":\"new\",\"idx\":{},\"n\":1,\"bytes\":{},\"local\":false",
+                    global_chunk_index_start + cur_idx,
+                    n_bytes
+                )
+            });
 
             dedup_metrics.total_chunks += 1;
             dedup_metrics.total_bytes += n_bytes;
@@ -200,6 +228,8 @@ impl<DataInterfaceType: DeduplicationDataInterface> FileDeduper<DataInterfaceTyp
 
             // Do we need to cut a new xorb first?
             if self.new_data_size + n_bytes > *MAX_XORB_BYTES || self.new_data.len() + 1 > *MAX_XORB_CHUNKS {
+                #[cfg(xet_verif)]
+                utils::verif::emit("DdCut", || format!("\"chunks\":{},\"bytes\":{}", self.new_data.len(), self.new_data_size));
                 let new_xorb = self.cut_new_xorb();
                 self.new_xorbs.push(new_xorb.hash());
                 self.data_mng.register_new_xorb(new_xorb).await?;
